@@ -24,6 +24,10 @@ Theorem C11_crosstab_not_pushed_down : forall q, pq_crosstab q = true -> pushdow
 Proof. exact crosstab_not_pushed_down. Qed.
 Theorem C11_limited_subquery_not_pushed_down : forall q, pq_subbad q = true -> pushdown_allowed q = false.
 Proof. exact limited_subquery_not_pushed_down. Qed.
+(* a FROM-subquery that filters by an IN-subquery of its own is never pushed down: each partition would evaluate that
+   subquery on its own data only (only the outermost WHERE's subqueries are evaluated cluster-wide by the leader) *)
+Theorem C11_nested_subquery_not_pushed_down : forall q, pq_nested_subq q = true -> pushdown_allowed q = false.
+Proof. exact nested_subquery_not_pushed_down. Qed.
 Theorem C11_unkeyed_pushdown_only_when_nothing_regroups : forall q, pq_pk q = [] -> pushdown_allowed q = true ->
   pq_table_gb q = None /\ forallb l_all (pq_levels q) = true.
 Proof. exact unkeyed_pushdown_only_when_nothing_regroups. Qed.
@@ -58,6 +62,7 @@ Proof. exact rejection_is_justified. Qed.
 Print Assumptions C11_pushdown_only_if_confined.
 Print Assumptions C11_crosstab_not_pushed_down.
 Print Assumptions C11_limited_subquery_not_pushed_down.
+Print Assumptions C11_nested_subquery_not_pushed_down.
 Print Assumptions C11_unkeyed_pushdown_only_when_nothing_regroups.
 Print Assumptions C11_table_key_must_carry_partition_keys.
 Print Assumptions C11_pushdown_sound.
